@@ -1404,17 +1404,19 @@ def first_blocks(case):
 def check_dtypes(ctx, feats, case, out, fb):
     """The dtype of what katdal delivers against the model's (wire_602 / wire_605)."""
     tab = dt_table(ctx)
+    known = fb is not None
     if fb is None:
         fb = {n: (1, 0) for n in NAMES}
     for n in NAMES:
-        ctx.count('first_block[%s]=%s%s' % (n, 'present' if fb[n][0] else 'lost', '+cut' if fb[n][1] else ''))
+        if known:
+            ctx.count('first_block[%s]=%s%s' % (n, 'present' if fb[n][0] else 'lost', '+cut' if fb[n][1] else ''))
     exp = {'vis': tab[(0,) + fb['correlator_data']], 'flags': tab[(1,) + fb['flags']], 'weights': tab['weights']}
     for obs in ('vis', 'flags', 'weights'):
         got = DT_CODE.get(str(np.asarray(out[obs]).dtype), -2)
         if got != exp[obs]:
             first = {'vis': 'correlator_data', 'flags': 'flags', 'weights': 'weights'}[obs]
-            ctx.disagree('%s;obs=%s;first_block=%s%s;symptom=dtype' % (feats, obs, 'present' if fb[first][0] else 'lost',
-                                                                       '+cut' if fb[first][1] else ''),
+            ctx.disagree('%s;obs=%s;first_block=%s%s;symptom=dtype' % (feats, obs, 'n/a' if not known else 'present' if fb[first][0]
+                                                                       else 'lost', '+cut' if fb[first][1] else ''),
                          case, str(np.asarray(out[obs]).dtype), exp[obs],
                          'dtype of the delivered %s differs from the stored dtype' % obs, spec=exp[obs])
 
@@ -1554,7 +1556,7 @@ def tie_prefixes(ctx, given=None):
             v, cb, sn = view_l0_capture_stream(ts, 'cb', 'sdp_l0')
             src = TelstateDataSource(v, cb, sn, chunk_store=DictChunkStore(), upgrade_flags=case['upgrade'])
             impl = sorted((NAMES.index(k), int(i['prefix'][1:])) for k, i in src.data.chunk_info.items())
-        except (KeyError, ValueError) as e:
+        except Exception as e:     # noqa: BLE001   (KeyError / ValueError on the unchanged tree)
             impl = 'raises:' + type(e).__name__
         tab = lambda d, conv: [[eval(k), conv(x)] for k, x in sorted(d.items())]     # noqa: E731
         wire = [tab(case['cn'], int), tab(case['st'], int), tab(case['src'], list),
